@@ -275,3 +275,24 @@ func ExtractedBad(a api, skip bool) error {
 	}
 	return a.Create("x")
 }
+
+// ClosureFlag: a flag is cleared inside a local closure; once the closure's
+// calls are inlined (and its definition dropped) the flag is a plain local again.
+func ClosureFlag(a api) (stored bool) {
+	rendered := true
+	fail := func(err error) {
+		_ = err
+		rendered = false
+	}
+	if err := a.Write("one"); err != nil {
+		fail(err)
+	}
+	if err := a.Write("two"); err != nil {
+		fail(err)
+	}
+	if rendered {
+		_ = a.Create("x")
+		stored = true
+	}
+	return stored
+}
